@@ -172,8 +172,8 @@ FAMILIES = [
            bounds='2 transfers, 6 configurations, attacker before / after the victim'),
     Family('three', fam_pipe,
            quick=dict(configs=CONFIGS3[:2], fault_kinds=[Fault.NONE]),
-           thorough=dict(configs=CONFIGS3, fault_kinds=[Fault.NONE, Fault.CANCEL], placements=False,
-                         _max_wall=1500, _max_paths=900000),
+           thorough=dict(configs=CONFIGS3[:2], fault_kinds=[Fault.NONE, Fault.CANCEL],
+                         placements=False, _max_wall=1500, _max_paths=900000),
            reach=['none'],
            bounds='3 transfers'),
     Family('unbounded', fam_pipe,
